@@ -526,8 +526,8 @@ package bbolt
 //@   props C13
 //@   requires db != nil && db.meta0 != nil && db.meta1 != nil && (metavalid(db.meta0) || metavalid(db.meta1))
 //@   ensures [loaded] db.freelist != nil
-//@   ensures [synced] dbmeta(db).freelist != common.PgidNoFreelist ==> calls("freelist.Interface.Read", db.freelist) == old(calls("freelist.Interface.Read", db.freelist)) + 1 && lastread == dbpage(db, dbmeta(db).freelist) && calls("freelist.Interface.Init", db.freelist) == old(calls("freelist.Interface.Init", db.freelist))
-//@   ensures [scanned] dbmeta(db).freelist == common.PgidNoFreelist ==> calls("freelist.Interface.Init", db.freelist) == old(calls("freelist.Interface.Init", db.freelist)) + 1 && calls("(*DB).freepages", db) == old(calls("(*DB).freepages", db)) + 1 && calls("freelist.Interface.Read", db.freelist) == old(calls("freelist.Interface.Read", db.freelist))
+//@   ensures [synced] dbmeta(db).freelist != common.PgidNoFreelist ==> (let f := ifaceref(db.freelist) in calls("freelist.Interface.Read", f) == old(calls("freelist.Interface.Read", f)) + 1 && calls("freelist.Interface.Init", f) == old(calls("freelist.Interface.Init", f))) && lastread == dbpage(db, dbmeta(db).freelist)
+//@   ensures [scanned] dbmeta(db).freelist == common.PgidNoFreelist ==> (let f := ifaceref(db.freelist) in calls("freelist.Interface.Init", f) == old(calls("freelist.Interface.Init", f)) + 1 && calls("freelist.Interface.Read", f) == old(calls("freelist.Interface.Read", f))) && calls("(*DB).freepages", db) == old(calls("(*DB).freepages", db)) + 1
 //@   ensures [same] db.meta0 == old(db.meta0) && db.meta1 == old(db.meta1) && db.data == old(db.data) && dbmeta(db) == old(dbmeta(db)) && metavalid(db.meta0) == old(metavalid(db.meta0)) && metavalid(db.meta1) == old(metavalid(db.meta1))
 
 //@ func (*DB).loadFreelist
